@@ -200,6 +200,90 @@ Proof.
   - destruct (run_acts_res c 0 l RFresh s HA) as [A _]; [discriminate|]. exact A.
 Qed.
 
+(* ---------------------------------------------------------------- the user hook may raise *)
+Lemma run_acts_h_end hr sk c s t : run_acts_h hr sk c s (AGuardEnd :: t) = run_acts_h hr false c s t.
+Proof. reflexivity. Qed.
+Lemma run_acts_h_cons hr sk c s a t :
+  a <> AGuardEnd ->
+  run_acts_h hr sk c s (a :: t) =
+  if sk then run_acts_h hr true c s t
+  else (fst (run_acts_h hr (match a with AHook => hr | _ => false end) c (fst (do_act c s a)) t),
+        snd (do_act c s a) ++ snd (run_acts_h hr (match a with AHook => hr | _ => false end) c (fst (do_act c s a)) t)).
+Proof.
+  intros N. destruct a; try congruence; cbn [run_acts_h]; (destruct sk; [reflexivity|]);
+    (destruct (do_act c s _) as [s1 o1]; simpl fst; simpl snd;
+     match goal with |- context [run_acts_h ?h ?k c s1 t] => destruct (run_acts_h h k c s1 t) end; reflexivity).
+Qed.
+Lemma act_guard_dec (a : act) : {a = AGuardEnd} + {a <> AGuardEnd}.
+Proof. destruct a; (left; reflexivity) || (right; discriminate). Qed.
+
+Lemma run_acts_h_tag hr c l : forall sk s, Forall (fun o => tag o = c) (snd (run_acts_h hr sk c s l)).
+Proof.
+  induction l as [|a l IH]; intros sk s; [constructor|].
+  destruct (act_guard_dec a) as [->|N]; [rewrite run_acts_h_end; apply IH|].
+  rewrite run_acts_h_cons by exact N. destruct sk; [apply IH|].
+  simpl. apply Forall_app. split; [apply do_act_tag | apply IH].
+Qed.
+Lemma run_acts_h_fixed hr c l : forall sk s,
+  c_acc (fst (run_acts_h hr sk c s l)) = c_acc s /\ c_ended (fst (run_acts_h hr sk c s l)) = c_ended s.
+Proof.
+  induction l as [|a l IH]; intros sk s; [split; reflexivity|].
+  destruct (act_guard_dec a) as [->|N]; [rewrite run_acts_h_end; apply IH|].
+  rewrite run_acts_h_cons by exact N. destruct sk; [apply IH|].
+  simpl. destruct (IH (match a with AHook => hr | _ => false end) (fst (do_act c s a))) as [A B].
+  destruct (do_act_fixed c s a) as [A' B']. split; congruence.
+Qed.
+Lemma do_act_nodup c s a : NoDup (c_tracked s) -> NoDup (c_tracked (fst (do_act c s a))).
+Proof.
+  intros H. destruct a; simpl; try exact H; [destruct (c_slot s) | destruct (c_open s) | constructor]; exact H.
+Qed.
+Lemma run_acts_h_nodup hr c l : forall sk s,
+  NoDup (c_tracked s) -> NoDup (c_tracked (fst (run_acts_h hr sk c s l))).
+Proof.
+  induction l as [|a l IH]; intros sk s H; [exact H|].
+  destruct (act_guard_dec a) as [->|N]; [rewrite run_acts_h_end; apply IH, H|].
+  rewrite run_acts_h_cons by exact N. destruct sk; [apply IH, H|].
+  simpl. apply IH, do_act_nodup, H.
+Qed.
+(* a hook that does not raise: the plain sequence *)
+Lemma run_acts_h_noraise c l : forall s, run_acts_h false false c s l = run_acts c s l.
+Proof.
+  induction l as [|a l IH]; intros s; [reflexivity|].
+  destruct (act_guard_dec a) as [->|N].
+  - rewrite run_acts_h_end, run_acts_cons, IH. simpl. destruct (run_acts c s l); reflexivity.
+  - rewrite run_acts_h_cons by exact N. rewrite run_acts_cons.
+    assert (E : (match a with AHook => false | _ => false end) = false) by (destruct a; reflexivity).
+    rewrite E, IH. reflexivity.
+Qed.
+(* with the guard discipline, a raising hook skips nothing: the cleanup run is identical either way *)
+Lemma run_acts_h_guard c l : forall sk s,
+  guard_ok_from sk l = true -> run_acts_h true sk c s l = run_acts_h false false c s l.
+Proof.
+  induction l as [|a l IH]; intros sk s G; [reflexivity|].
+  destruct (act_guard_dec a) as [->|N].
+  - rewrite !run_acts_h_end. apply IH. exact G.
+  - assert (K : sk = false /\ guard_ok_from (match a with AHook => true | _ => false end) l = true).
+    { destruct a; simpl in G; try congruence; apply andb_true_iff in G; destruct G as [G1 G2];
+        apply negb_true_iff in G1; auto. }
+    destruct K as [-> K]. rewrite !run_acts_h_cons by exact N.
+    assert (E : (match a with AHook => false | _ => false end) = false) by (destruct a; reflexivity).
+    rewrite E, (IH _ (fst (do_act c s a)) K). reflexivity.
+Qed.
+Lemma cleanup_run_eq sh c s :
+  guard_ok_from false (sh_cleanup sh) = true -> cleanup_run sh c s = run_acts c s (sh_cleanup sh).
+Proof.
+  intros G. unfold cleanup_run. destruct (sh_hook_raises sh c).
+  - rewrite run_acts_h_guard by exact G. apply run_acts_h_noraise.
+  - apply run_acts_h_noraise.
+Qed.
+Lemma cleanup_run_tag sh c s : Forall (fun o => tag o = c) (snd (cleanup_run sh c s)).
+Proof. apply run_acts_h_tag. Qed.
+Lemma cleanup_run_fixed sh c s :
+  c_acc (fst (cleanup_run sh c s)) = c_acc s /\ c_ended (fst (cleanup_run sh c s)) = c_ended s.
+Proof. apply run_acts_h_fixed. Qed.
+Lemma cleanup_run_nodup sh c s : NoDup (c_tracked s) -> NoDup (c_tracked (fst (cleanup_run sh c s))).
+Proof. apply run_acts_h_nodup. Qed.
+
 (* ---------------------------------------------------------------- states *)
 Lemma upd_same st c s : conns (upd st c s) c = s.
 Proof. simpl. rewrite Nat.eqb_refl. reflexivity. Qed.
@@ -239,25 +323,25 @@ Lemma end_conn_inactive sh st c : active (conns st c) = false -> end_conn sh st 
 Proof. unfold end_conn. intros ->. reflexivity. Qed.
 Lemma end_conn_active sh st c :
   active (conns st c) = true ->
-  conns (fst (end_conn sh st c)) c = set_ended (fst (run_acts c (conns st c) (sh_cleanup sh))) /\
-  for_conn c (snd (end_conn sh st c)) = snd (run_acts c (conns st c) (sh_cleanup sh)).
+  conns (fst (end_conn sh st c)) c = set_ended (fst (cleanup_run sh c (conns st c))) /\
+  for_conn c (snd (end_conn sh st c)) = snd (cleanup_run sh c (conns st c)).
 Proof.
-  unfold end_conn. intros ->. pose proof (run_acts_tag c (sh_cleanup sh) (conns st c)) as T.
-  destruct (run_acts c (conns st c) (sh_cleanup sh)) as [s o]. simpl in *.
+  unfold end_conn. intros ->. pose proof (cleanup_run_tag sh c (conns st c)) as T.
+  destruct (cleanup_run sh c (conns st c)) as [s o]. simpl in *.
   rewrite Nat.eqb_refl. split; [reflexivity | apply for_conn_all; exact T].
 Qed.
 Lemma end_conn_other sh st c c' :
   c' <> c -> conns (fst (end_conn sh st c)) c' = conns st c' /\ for_conn c' (snd (end_conn sh st c)) = [].
 Proof.
   intros N. unfold end_conn. destruct (active (conns st c)); [|split; reflexivity].
-  pose proof (run_acts_tag c (sh_cleanup sh) (conns st c)) as T.
-  destruct (run_acts c (conns st c) (sh_cleanup sh)) as [s o]. simpl in *.
+  pose proof (cleanup_run_tag sh c (conns st c)) as T.
+  destruct (cleanup_run sh c (conns st c)) as [s o]. simpl in *.
   destruct (Nat.eqb_spec c' c); [contradiction|]. split; [reflexivity | eapply for_conn_none; eauto].
 Qed.
 Lemma end_conn_dom sh st c : dom (fst (end_conn sh st c)) = dom st.
 Proof.
   unfold end_conn. destruct (active (conns st c)); [|reflexivity].
-  destruct (run_acts c (conns st c) (sh_cleanup sh)). reflexivity.
+  destruct (cleanup_run sh c (conns st c)). reflexivity.
 Qed.
 
 Lemma end_all_cons sh st v t :
@@ -294,8 +378,8 @@ Proof.
 Qed.
 Lemma end_all_active sh vs : forall st c,
   active (conns st c) = true -> In c vs ->
-  conns (fst (end_all sh st vs)) c = set_ended (fst (run_acts c (conns st c) (sh_cleanup sh))) /\
-  for_conn c (snd (end_all sh st vs)) = snd (run_acts c (conns st c) (sh_cleanup sh)).
+  conns (fst (end_all sh st vs)) c = set_ended (fst (cleanup_run sh c (conns st c))) /\
+  for_conn c (snd (end_all sh st vs)) = snd (cleanup_run sh c (conns st c)).
 Proof.
   induction vs as [|v vs IH]; intros st c H I; [destruct I|].
   rewrite end_all_cons. simpl fst; simpl snd. rewrite for_conn_app.
@@ -316,8 +400,8 @@ Inductive view (sh : shape) (st st' : state) (ev : event) (o : list out) (c : co
 | VServed t a : active (conns st c) = true -> ev_conn ev = c -> conns st' c = serve (conns st c) t a ->
     for_conn c o = [] -> view sh st st' ev o c
 | VEnded : active (conns st c) = true -> (ev_conn ev = c \/ exists c0 k, ev = Timeout c0 k) ->
-    conns st' c = set_ended (fst (run_acts c (pre_end (conns st c) ev) (sh_cleanup sh))) ->
-    for_conn c o = snd (run_acts c (pre_end (conns st c) ev) (sh_cleanup sh)) -> view sh st st' ev o c
+    conns st' c = set_ended (fst (cleanup_run sh c (pre_end (conns st c) ev))) ->
+    for_conn c o = snd (cleanup_run sh c (pre_end (conns st c) ev)) -> view sh st st' ev o c
 | VNewOk ok : ev = Connect c ok -> known st c = false -> conns st' c = mkc true true false [] false true ->
     for_conn c o = [] -> view sh st st' ev o c
 | VNewRej ok : ev = Connect c ok -> known st c = false -> c_acc (conns st' c) = false ->
@@ -460,8 +544,8 @@ Proof.
   - rewrite E. split; [apply good_serve; exact G|]. intros _. apply D1, K. left. apply active_acc in A. tauto.
   - rewrite E. split.
     + split; [rewrite active_set_ended; discriminate|]. simpl.
-      change (NoDup (c_tracked (fst (run_acts c (pre_end (conns st c) ev) (sh_cleanup (cf_shape cf)))))).
-      apply run_acts_nodup. apply good_pre_end. exact G.
+      change (NoDup (c_tracked (fst (cleanup_run (cf_shape cf) c (pre_end (conns st c) ev))))).
+      apply cleanup_run_nodup. apply good_pre_end. exact G.
     + intros _. apply D1, K. left. apply active_acc in A. tauto.
   - rewrite E2. split; [split; [auto | constructor] | intros _; eapply D2; eauto].
   - split; [split; [|exact E4] | intros _; eapply D2; eauto].
@@ -492,8 +576,8 @@ Lemma step_ending cf st ev c :
   c_ended (conns st c) = false -> c_ended (conns (fst (step cf st ev)) c) = true ->
   c_acc (conns (fst (step cf st ev)) c) = true ->
   active (conns st c) = true /\
-  conns (fst (step cf st ev)) c = set_ended (fst (run_acts c (pre_end (conns st c) ev) (sh_cleanup (cf_shape cf)))) /\
-  for_conn c (snd (step cf st ev)) = snd (run_acts c (pre_end (conns st c) ev) (sh_cleanup (cf_shape cf))).
+  conns (fst (step cf st ev)) c = set_ended (fst (cleanup_run (cf_shape cf) c (pre_end (conns st c) ev))) /\
+  for_conn c (snd (step cf st ev)) = snd (cleanup_run (cf_shape cf) c (pre_end (conns st c) ev)).
 Proof.
   intros H0 H1 H2.
   destruct (step_view cf st ev c) as [E _ | t a _ _ E _ | A _ E F | ok _ _ E _ | ok _ _ E _ _]; auto.
@@ -552,9 +636,9 @@ Lemma run_from_ended cf evs : forall st c,
     inv (fst (run_from cf st evs1)) /\
     active (conns (fst (run_from cf st evs1)) c) = true /\
     conns (fst (run_from cf st evs)) c =
-      set_ended (fst (run_acts c (pre_end (conns (fst (run_from cf st evs1)) c) ev) (sh_cleanup (cf_shape cf)))) /\
+      set_ended (fst (cleanup_run (cf_shape cf) c (pre_end (conns (fst (run_from cf st evs1)) c) ev))) /\
     for_conn c (snd (run_from cf st evs)) =
-      snd (run_acts c (pre_end (conns (fst (run_from cf st evs1)) c) ev) (sh_cleanup (cf_shape cf))).
+      snd (cleanup_run (cf_shape cf) c (pre_end (conns (fst (run_from cf st evs1)) c) ev)).
 Proof.
   induction evs as [|ev t IH]; intros st c I H0 H1 H2; [simpl in H1; congruence|].
   rewrite run_from_cons in *. simpl fst in *; simpl snd in *.
@@ -575,7 +659,7 @@ Qed.
 (* ---------------------------------------------------------------- the property *)
 Lemma shape_ok_ends sh : shape_ok sh = true -> forall x, sh_ends sh x = true.
 Proof.
-  unfold shape_ok. rewrite !andb_true_iff. intros [[[_ H] _] _] x.
+  unfold shape_ok. rewrite !andb_true_iff. intros [[[[_ _] H] _] _] x.
   rewrite forallb_forall in H. apply H. destruct x; simpl; auto 10.
 Qed.
 
@@ -600,8 +684,9 @@ Proof.
   assert (As : active s = true) by (unfold s; rewrite active_pre_end; exact A).
   destruct (J c) as [G _]. apply (good_pre_end _ ev) in G. fold s in G. destruct G as [G1 G2].
   destruct (G1 As) as [Go Gs].
-  assert (AO : acts_ok (sh_cleanup (cf_shape cf)) = true).
+  assert (AO : acts_ok (sh_cleanup (cf_shape cf)) = true /\ guard_ok_from false (sh_cleanup (cf_shape cf)) = true).
   { unfold shape_ok in OK. rewrite !andb_true_iff in OK. tauto. }
+  destruct AO as [AO GO]. rewrite (cleanup_run_eq _ c _ GO) in S, O.
   destruct (run_acts_ok c (sh_cleanup (cf_shape cf)) s AO Go Gs G2) as [C1 [C2 [C3 [C4 [C5 [C6 [C7 C8]]]]]]].
   split; [exact As|]. split; [exact O|].
   rewrite (count_for_conn (DisconnectHook c)), (count_for_conn (SockClosed c)), (count_for_conn (SlotReleased c)).
